@@ -271,7 +271,7 @@ def stmts(draw, cfg: Cfg, mode: str, version: int, fields, subs: List[str], dept
             if cfg.shared.get("loop_bias") and subs:
                 kinds += ["while"] * 6
         if version >= 8 and depth < 2:
-            kinds += ["switch"]
+            kinds += ["switch", "switch"]
         kinds += ["return", "approve", "err", "reject"] if depth > 0 else ["return"]
         if in_sub is not None and cfg.on("loop_to_sub_entry"):
             kinds += ["spin"]
@@ -323,7 +323,9 @@ def stmts(draw, cfg: Cfg, mode: str, version: int, fields, subs: List[str], dept
                 out.append(["call", draw(st.sampled_from(in_loop))])
         elif kind == "switch":
             arms = [draw(stmts(cfg, mode, version, fields, subs, depth + 1, budget, in_sub)) for _ in range(draw(st.integers(1, 3)))]
-            out.append(["switch", arms, draw(st.sampled_from([0, 0, 1, 2])), draw(st.booleans())])
+            if subs and not terminal(arms[-1]) and draw(st.booleans()):
+                arms[-1].append(["call", draw(st.sampled_from(subs))])  # the last arm ends in a call: the join is its return point
+            out.append(["switch", arms, draw(st.sampled_from([0, 1, 2, 2])), draw(st.sampled_from([False, False, True])), draw(st.booleans())])
         elif kind == "call":
             callee = draw(st.sampled_from(subs))
             out.append(["call", callee])
@@ -759,7 +761,11 @@ class Lower:
                 sw.append(end)  # one value selects the join directly
                 self.feats.append("switch_targets_join")
             self.emit(I("switch", *sw))
-            self.emit(I("b", end))
+            if len(s) > 4 and s[4] and self.cfg.on("switch_to_join"):
+                self.emit(I("err"))  # a value that selects no label is rejected (`switch a b; err`)
+                self.feats.append("switch_default_rejects")
+            else:
+                self.emit(I("b", end))
             for n_arm, (lb, arm) in enumerate(zip(labs, arms)):
                 self.emit(L(lb))
                 self.stmts(arm, in_sub)
